@@ -219,6 +219,7 @@ func runUnknownSkip(rc *RuleCtx) {
 		return false
 	}
 	unk := findUnknownErrs(w)
+	disallowHonoured(rc, unk)
 	for _, fn := range w.Funcs {
 		if fn.Blocks == nil {
 			continue
@@ -315,13 +316,91 @@ func runUnknownSkip(rc *RuleCtx) {
 						} else {
 							rc.ok(fn, "unknown-field-branch", instrPos(iff), "value skipped (or loop left) before the next header is read", true)
 						}
-						// companion: the disallow option is honoured on the unknown branch
+					}
+				}
+			}
+		}
+	}
+}
+
+// disallowHonoured: in every function that has access to a disallow-unknown option, each nil-tested
+// descriptor lookup must be able to return the unknown-field error on its nil branch.
+func disallowHonoured(rc *RuleCtx, unk *unknownErrs) {
+	w := rc.W
+	lookups := map[*ssa.Function]bool{}
+	for _, n := range []string{"(thrift.StructDescriptor).FieldById", "(thrift.StructDescriptor).FieldByKey", "(*proto.MessageDescriptor).ByNumber", "(*proto.MessageDescriptor).ByName", "(*proto.MessageDescriptor).ByJSONName"} {
+		lookups[w.Fn(n)] = true
+	}
+	for _, fn := range w.Funcs {
+		if fn.Blocks == nil {
+			continue
+		}
+		// gate: the function reads a parameter or field whose name contains "disallow"
+		gated := false
+		for _, p := range fn.Params {
+			if strings.Contains(strings.ToLower(p.Name()), "disallow") {
+				gated = true
+			}
+		}
+		for _, b := range fn.Blocks {
+			for _, ins := range b.Instrs {
+				if fa, ok := ins.(*ssa.FieldAddr); ok {
+					if _, n, ok := fieldNameOf(fa); ok && strings.Contains(strings.ToLower(n), "disallow") {
+						gated = true
+					}
+				}
+				if f, ok := ins.(*ssa.Field); ok {
+					if _, n, ok := fieldNameOf(f); ok && strings.Contains(strings.ToLower(n), "disallow") {
+						gated = true
+					}
+				}
+			}
+		}
+		if !gated {
+			continue
+		}
+		for _, b := range fn.Blocks {
+			for _, ins := range b.Instrs {
+				c, ok := ins.(*ssa.Call)
+				if !ok || c.Call.StaticCallee() == nil || !lookups[c.Call.StaticCallee()] {
+					continue
+				}
+				for _, r := range *c.Referrers() {
+					bo, ok := r.(*ssa.BinOp)
+					if !ok {
+						continue
+					}
+					for _, rr := range *bo.Referrers() {
+						iff, ok := rr.(*ssa.If)
+						if !ok {
+							continue
+						}
+						subj, nilOnTrue, ok := nilTest(iff.Cond)
+						if !ok || subj != c {
+							continue
+						}
+						if nonNilRegion(fn, c)[iff.Block()] {
+							continue // a redundant re-test inside the region where the value is already known non-nil
+						}
+						nilSucc := iff.Block().Succs[1]
+						if nilOnTrue {
+							nilSucc = iff.Block().Succs[0]
+						}
 						hasErr := false
 						for d := range edgeRegion(nilSucc) {
 							if ret, ok := lastInstr(d).(*ssa.Return); ok {
 								for _, rv := range ret.Results {
+									// the unknown-field error, or any certain error (some converters report ErrConvert)
 									if unk.isUnknown(rv, 0) {
 										hasErr = true
+									} else if types_isError(rv) && w.EC().nonNil(rv, nil, map[ssa.Value]bool{}) {
+										// another certain error counts only when it is returned BECAUSE a disallow flag is set
+										for _, cd := range controllingIfs(d) {
+											k, neg := condKey(cd.cond)
+											if strings.Contains(strings.ToLower(condName(k)), "disallow") && cd.val != neg {
+												hasErr = true
+											}
+										}
 									}
 								}
 							}
@@ -330,7 +409,7 @@ func runUnknownSkip(rc *RuleCtx) {
 						if hasErr {
 							rc.ok(fn, "unknown-field-disallow", instrPos(iff), "the unknown branch can return the unknown-field error", true)
 						} else {
-							rc.bad(fn, "unknown-field-disallow", instrPos(iff), "the unknown-field branch never returns the unknown-field error: a disallow-unknown option cannot take effect here")
+							rc.bad(fn, "unknown-field-disallow", instrPos(iff), "this function honours a disallow-unknown option elsewhere, but the unknown branch of lookup "+c.Call.StaticCallee().Name()+" never returns the unknown-field error: the option cannot take effect here")
 						}
 					}
 				}
